@@ -78,6 +78,17 @@ def violationsOf (m : Meth) : List Viol :=
 
 def violations : List Viol := methods.flatMap violationsOf
 
+/-! ### SetConcurrent propagation (over the regenerated facts) -/
+
+/-- is `m` among the events before the first `return`? -/
+def markedBeforeReturn (ev : List String) (m : String) : Bool :=
+  (ev.takeWhile (· != "return")).contains m
+
+def eventsOf (q : String) : List String :=
+  match setConcEvents.find? (·.1 == q) with
+  | some e => e.2
+  | none => []
+
 /-! ### abstract RW-lock semantics (M-CONC instance) -/
 
 /-- state of one RW lock: number of readers, writer present -/
